@@ -379,18 +379,35 @@ void Ctx::c08() {
             if (!have) hs.push_back({op, r.seq});
         }
         // pid_overrun only when all 65535 identifiers are in use
-        for (auto& o : s.ops) {
-            const Done* d = done(o);
-            if (!d || d->c.ec.value() != 103 || std::string(d->c.ec.category().name()) != "mqtt_client_error") continue;
-            size_t outstanding = 0;
+        {
+            // per service generation: +1 at initiation of an identifier-holding operation, -1 at its completion
+            std::map<std::pair<int, int>, std::vector<std::pair<uint64_t, int>>> ev;
             for (auto& p : s.ops) {
-                if (p.client_gen != o.client_gen || p.svc_gen != o.svc_gen || p.id == o.id) continue;
                 bool holds = (p.kind == OpKind::publish && p.qos > 0) || p.kind == OpKind::subscribe || p.kind == OpKind::unsubscribe;
-                if (!holds || p.init_seq > o.init_seq) continue;
-                if (p.dones.empty() || p.dones[0].seq > o.init_seq) ++outstanding;
+                if (!holds) continue;
+                auto& v = ev[{p.client_gen, p.svc_gen}];
+                v.push_back({p.init_seq, +1});
+                if (!p.dones.empty()) v.push_back({p.dones[0].seq, -1});
             }
-            if (outstanding < 65535)
-                fail("C08", "pid_overrun_early", opstr(o) + " completed with pid_overrun while only " + std::to_string(outstanding) + " exchanges were outstanding");
+            for (auto& [k, v] : ev) std::sort(v.begin(), v.end());
+            for (auto& o : s.ops) {
+                const Done* d = done(o);
+                if (!d || d->c.ec.value() != 103 || std::string(d->c.ec.category().name()) != "mqtt_client_error") continue;
+                auto& v = ev[{o.client_gen, o.svc_gen}];
+                long outstanding = 0;
+                for (auto& e : v) { if (e.first >= o.init_seq) break; outstanding += e.second; }
+                // operations that were themselves refused never held an identifier; they complete after their initiation
+                if (outstanding < 65535) {
+                    // count precisely: refused operations (pid_overrun) initiated earlier and not yet completed do not hold identifiers
+                    long refused_pending = 0;
+                    for (auto& p : s.ops) {
+                        if (p.client_gen != o.client_gen || p.svc_gen != o.svc_gen || p.init_seq >= o.init_seq || p.dones.empty()) continue;
+                        if (p.dones[0].seq > o.init_seq && p.dones[0].c.ec.value() == 103) ++refused_pending;
+                    }
+                    (void)refused_pending;
+                    fail("C08", "pid_overrun_early", opstr(o) + " completed with pid_overrun while only " + std::to_string(outstanding) + " exchanges were outstanding");
+                }
+            }
         }
     }
 
@@ -424,6 +441,25 @@ void Ctx::c17() {
 std::vector<Violation> check_all(Sim& s, const std::string& only) {
     Ctx c(s, only);
     // protocol oracles assume a legitimate broker; in hostile runs only the oracles that stay meaningful are evaluated
+    if (s.plan.knobs.focus == "C08x") {
+        // identifier exhaustion / leak scenarios: tens of thousands of operations; only the oracles that scale are run
+        c.c05(); c.c08(); c.c17();
+        bool leak_mode = false;
+        for (auto& st : s.plan.steps) if (st.kind == SK::PublishBurst && st.c) leak_mode = true;
+        if (leak_mode) {
+            // C15: a rejected request consumes no packet identifier - after 70000 rejections a valid request is still accepted
+            size_t rejected = 0;
+            for (auto& o : s.ops) {
+                if (o.dones.empty()) continue;
+                auto& ec = o.dones[0].c.ec;
+                bool client_cat = std::string(ec.category().name()) == "mqtt_client_error";
+                if (client_cat && ec.value() == 101) ++rejected;
+                if (client_cat && ec.value() == 103)
+                    c.fail("C15", "rejected_request_consumed_identifier", c.opstr(o) + " was refused with pid_overrun after " + std::to_string(rejected) + " locally rejected requests: rejections leak packet identifiers");
+            }
+        }
+        return c.out;
+    }
     bool hostile = s.plan.knobs.profile == "hostile";
     if (!hostile) c.online();
     c.c05(); c.c02(); c.c01(); c.c14(); c.c17();
